@@ -886,3 +886,162 @@ Proof.
   - intros i X t d Hi Ht Hd. apply elem_of_list_lookup_2 in Hi. apply elem_of_list_In in Hi.
     specialize (Hcl X Hi). apply bool_decide_eq_true in Hcl. by apply (Hcl t Ht d Hd).
 Qed.
+
+(* ------------------------------------------------------------------ the heuristic never raises *)
+Lemma group_add_keys {K : Type} `{EqDecision K} (k : K) w l k' ws :
+  (k', ws) ∈ group_add k w l → k' = k ∨ ∃ ws', (k', ws') ∈ l.
+Proof.
+  induction l as [|[k0 ws0] l IH]; simpl; intros Hin.
+  - apply elem_of_list_singleton in Hin. injection Hin as -> _. by left.
+  - destruct (decide (k = k0)) as [->|Hne].
+    + apply elem_of_cons in Hin as [[= -> _]|Hin]; [by left|]. right. exists ws. by right.
+    + apply elem_of_cons in Hin as [[= -> ->]|Hin]; [right; exists ws0; by left|].
+      destruct (IH Hin) as [?|[ws' ?]]; [by left|]. right. exists ws'. by right.
+Qed.
+
+Lemma groupsI_total E h2c wl : ∀ acc,
+  (∀ w, w ∈ wl → ∃ h oc, e_host E !! w = Some h ∧ h2c !! h = Some oc) →
+  ∃ gs, groupsI E h2c wl acc = Next gs ∧
+        ∀ i ws, (i, ws) ∈ gs → (∃ ws', (i, ws') ∈ acc) ∨
+                               ∃ w h, w ∈ wl ∧ e_host E !! w = Some h ∧ h2c !! h = Some (Some i).
+Proof.
+  induction wl as [|w wl IH]; intros acc Hw; simpl.
+  - exists acc. split; [done|]. intros i ws Hin. left. eauto.
+  - destruct (Hw w ltac:(by left)) as (h & oc & Hh & Hoc). rewrite Hh, Hoc.
+    assert (Hw' : ∀ w0, w0 ∈ wl → ∃ h oc, e_host E !! w0 = Some h ∧ h2c !! h = Some oc) by (intros w0 ?; apply Hw; by right).
+    destruct oc as [i0|].
+    + destruct (IH (group_add i0 w acc) Hw') as (gs & -> & Hk). exists gs. split; [done|].
+      intros i ws Hin. destruct (Hk i ws Hin) as [[ws' Hacc]|(w1 & h1 & ? & ? & ?)].
+      * destruct (group_add_keys _ _ _ _ _ Hacc) as [->|?]; [|by left]. right. exists w, h. split; [by left|done].
+      * right. exists w1, h1. split; [by right|done].
+    + destruct (IH acc Hw') as (gs & -> & Hk). exists gs. split; [done|].
+      intros i ws Hin. destruct (Hk i ws Hin) as [?|(w1 & h1 & ? & ? & ?)]; [by left|].
+      right. exists w1, h1. split; [by right|done].
+Qed.
+
+Lemma awc_total J E o v ws i : (i < List.length (a_cs v))%nat → ∃ a, awc J E o v ws i = Next a.
+Proof.
+  intros Hi. unfold awc. destruct (lookup_lt_is_Some_2 _ _ Hi) as [c ->].
+  destruct (heur o _ (filter (λ w, w ∈ e_gpu E) ws)) as [a1 gw']. destruct (heur o (filter (λ t, t ∉ j_gpu J) _) _) as [a2 gw2]. eauto.
+Qed.
+
+Lemma apply_asg_length v a : List.length (a_cs (apply_asg v a)) = List.length (a_cs v).
+Proof. apply cs_le_length, apply_asg_le. Qed.
+
+Lemma stepI_total J E o gs : ∀ v, (∀ i ws, (i, ws) ∈ gs → (i < List.length (a_cs v))%nat) → ∃ a, stepI J E o v gs = Next a.
+Proof.
+  induction gs as [|[i ws] gs IH]; intros v Hb; simpl; [eauto|].
+  destruct (awc_total J E o v ws i (Hb i ws ltac:(by left))) as [a ->]. simpl.
+  destruct (IH (apply_asg v a)) as [r ->]; [|simpl; eauto].
+  intros i' ws' Hin. rewrite apply_asg_length. apply (Hb i' ws'). by right.
+Qed.
+
+Lemma migrants_total E h2c cs wl : ∀ acc,
+  (∀ w, w ∈ wl → ∃ h oc, e_host E !! w = Some h ∧ h2c !! h = Some oc ∧ ∀ i, oc = Some i → (i < List.length cs)%nat) →
+  ∃ ms, migrants E h2c cs wl acc = Next ms.
+Proof.
+  induction wl as [|w wl IH]; intros acc Hw; simpl; [eauto|].
+  destruct (Hw w ltac:(by left)) as (h & oc & -> & -> & Hb).
+  assert (Hw' : ∀ w0, w0 ∈ wl → ∃ h oc, e_host E !! w0 = Some h ∧ h2c !! h = Some oc ∧ ∀ i, oc = Some i → (i < List.length cs)%nat)
+    by (intros w0 ?; apply Hw; by right).
+  destruct oc as [i|]; [|by apply IH].
+  destruct (lookup_lt_is_Some_2 _ _ (Hb i eq_refl)) as [c ->]. case_bool_decide; by apply IH.
+Qed.
+
+Lemma stepII_total J E o cl ms : ∀ v h2c k,
+  (k < List.length cl)%nat → (∀ z i, (z, i) ∈ cl → (i < List.length (a_cs v))%nat) →
+  ∃ r, stepII J E o cl v h2c k ms = Next r.
+Proof.
+  induction ms as [|[h ws] ms IH]; intros v h2c k Hk Hb; simpl; [eauto|].
+  destruct (lookup_lt_is_Some_2 _ _ Hk) as [[z i] Hki]. rewrite Hki.
+  destruct (awc_total J E o v ws i) as [a ->]; [apply (Hb z i); by apply elem_of_list_lookup_2 in Hki|]. simpl.
+  destruct (IH (apply_asg v a) (<[h := Some i]> h2c) (S k mod List.length cl)%nat) as [r ->]; [| |simpl; eauto].
+  - apply Nat.mod_upper_bound. lia.
+  - intros z' i' Hin. rewrite apply_asg_length. by apply (Hb z' i').
+Qed.
+
+Section nocrash.
+  Context (J : job) (E : env) (K : list (gset task)).
+  Hypothesis wf_nout : ∀ t, is_task J t → 1 ≤ nout J t.
+  Hypothesis Hwk : wf_comps J K.
+
+  (* one call of assign returns: no lookup of host2component / components fails *)
+  Theorem heur_assign_total s hs o : Inv J E s → HInv E K s hs → ∃ r, heur_assign J E o hs (idle (ctl s)) = Next r.
+  Proof.
+    intros Hinv Hh. unfold heur_assign.
+    assert (Hwl : ∀ w, w ∈ idle (ctl s) → ∃ h oc, e_host E !! w = Some h ∧ h_h2c hs !! h = Some oc ∧
+                        ∀ i, oc = Some i → (i < List.length (h_cs hs))%nat).
+    { intros w Hw. destruct (i_idle _ _ _ Hinv _ Hw) as ([h Hhw] & _). destruct (hi_h2c Hh _ _ Hhw) as (oc & ? & ?). eauto. }
+    destruct (groupsI_total E (h_h2c hs) (order_by (o_workers o) (idle (ctl s))) []) as (gs & -> & Hk).
+    { intros w Hw. apply order_by_spec in Hw. destruct (Hwl w Hw) as (h & oc & ? & ? & _). eauto. }
+    simpl. destruct (stepI_total J E o gs {| a_cs := h_cs hs; a_idle := idle (ctl s) |}) as [a1 ->].
+    { intros i ws Hin. simpl. destruct (Hk i ws Hin) as [[ws' Hn]|(w & h & Hw & Hhw & Hc)]; [by apply elem_of_nil in Hn|].
+      apply order_by_spec in Hw. destruct (Hwl w Hw) as (h' & oc & Hh' & Hoc & Hb).
+      rewrite Hhw in Hh'. injection Hh' as <-. rewrite Hc in Hoc. injection Hoc as <-. by apply Hb. }
+    simpl. case_bool_decide as Hi0; [eauto|]. case_bool_decide as Hcl0; [eauto|].
+    set (v1 := apply_asg _ a1) in *.
+    destruct (migrants_total E (h_h2c hs) (a_cs v1) (filter (λ w, w ∈ a_idle v1) (order_by (o_workers o) (idle (ctl s)))) []) as [ms ->].
+    { intros w Hw. apply elem_of_list_filter in Hw as [_ Hw]. apply order_by_spec in Hw.
+      destruct (Hwl w Hw) as (h & oc & ? & ? & Hb). exists h, oc. split; [done|]. split; [done|].
+      intros i Hi. unfold v1. rewrite apply_asg_length. by apply Hb. }
+    simpl. destruct (stepII_total J E o (comps_pos (a_cs v1)) ms v1 (h_h2c hs) 0) as [r ->]; [| |simpl; eauto].
+    - destruct (comps_pos (a_cs v1)); [done|simpl; lia].
+    - intros z i Hin. apply elem_of_comps_pos in Hin as (c & Hc & _). by apply lookup_lt_Some in Hc.
+  Qed.
+
+  Lemma assign_seq_safe asg : ∀ s, Inv J E s →
+    match assign_seq J E s asg with Crash _ | Fail _ => False | _ => True end.
+  Proof.
+    induction asg as [|[[w t] x] asg IH]; intros s Hinv; simpl; [done|].
+    pose proof (exec_inv J E wf_nout s (LAssign w t x) Hinv) as Hs.
+    destruct (exec J E s (LAssign w t x)) as [[s1 cm]| |e|e]; try done. by apply IH.
+  Qed.
+
+  Lemma h_notify_total s hs ev : Inv J E s → HInv E K s hs → ev ∈ pool s → ∃ hs', h_notify hs (ctl s) ev = Next hs'.
+  Proof.
+    intros Hinv Hh Hin.
+    assert (Hfind : ∀ t : task, is_task J t → is_Some (comp_of (h_cs hs) t)).
+    { intros t Ht. destruct (wk_cover _ _ Hwk _ Ht) as (i & X & HK & HX).
+      destruct (hinv_K_inv Hh HK) as (c & Hc & Hn). unfold comp_of.
+      assert (is_Some (list_find (λ c, t ∈ c_nodes c) (h_cs hs))) as [[j c'] Hf].
+      { apply (list_find_elem_of _ _ c); [by apply elem_of_list_lookup_2 in Hc|by rewrite Hn]. }
+      rewrite Hf. by eexists. }
+    destruct ev as [w d|h d|d v]; simpl; [| |eauto].
+    - destruct (i_pub _ _ _ Hinv _ _ Hin) as (_ & _ & Ht & _). destruct d as [p j]. simpl in *. destruct (Hfind p Ht) as [i Hi]. rewrite Hi. eauto.
+    - destruct (i_xev _ _ _ Hinv _ _ Hin) as [Hp _]. destruct (i_published _ _ _ Hinv _ Hp) as (Ht & _).
+      destruct d as [p j]. simpl in *. destruct (Hfind p Ht) as [i Hi]. rewrite Hi. eauto.
+  Qed.
+
+  (* no step of the heuristic-driven system raises (Crash) or asks the cluster for something impossible (Fail) *)
+  Theorem hexec_safe s hs hl : Inv J E s → HInv E K s hs →
+    match hexec J E (s, hs) hl with Crash _ | Fail _ => False | _ => True end.
+  Proof.
+    intros Hinv Hh. destruct hl as [o srcs|l]; [simpl|].
+    - destruct (has_computable (ctl s)); [|by case_bool_decide].
+      destruct (heur_assign_total s hs o Hinv Hh) as [[asg hs1] ->]. simpl.
+      case_bool_decide; [|done].
+      pose proof (assign_seq_safe (zip_with (λ (a : nat * worker * task) (m : gmap ds host), (a.1.2, a.2, m)) asg srcs) s Hinv) as Hs.
+      destruct (assign_seq J E s _) as [s1| |e|e]; done.
+    - pose proof (exec_inv J E wf_nout s l Hinv) as Hs.
+      destruct l as [w t x| |ev|w i|x|x|x]; unfold hexec; cbv beta iota; try done.
+      all: match goal with |- context [exec ?a ?b ?c ?l] => destruct (exec a b c l) as [[s1 cm]| |e|e] eqn:Hex end; try done.
+      destruct (h_notify_total s hs ev Hinv Hh) as [hs' ->]; [|done].
+      unfold exec in Hex. destruct (list_remove ev (pool s)) as [ps|] eqn:Hrm; [|done]. by apply list_remove_in in Hrm.
+  Qed.
+
+  Theorem hrun_safe ls : ∀ s hs, Inv J E s → HInv E K s hs →
+    match hrun J E (s, hs) ls with Crash _ | Fail _ => False | _ => True end.
+  Proof.
+    induction ls as [|l ls IH]; intros s hs Hinv Hh; [done|]. cbn [hrun].
+    pose proof (hexec_safe s hs l Hinv Hh) as Hs.
+    destruct (hexec J E (s, hs) l) as [[s1 hs1]| |e|e] eqn:Hex; try done. cbn [rbind].
+    destruct (hexec_inv J E K wf_nout Hwk s hs l s1 hs1 Hinv Hh Hex) as [Hinv1 Hh1]. by apply IH.
+  Qed.
+
+  Corollary hnever_crash_never_fail ls :
+    (∀ e, hrun J E (init J E, hinit J E K) ls ≠ Crash e) ∧ (∀ e, hrun J E (init J E, hinit J E K) ls ≠ Fail e).
+  Proof.
+    pose proof (hrun_safe ls _ _ (inv_init J E) (hinv_init J E K wf_nout Hwk)) as Hr.
+    split; intros e He; by rewrite He in Hr.
+  Qed.
+End nocrash.
